@@ -127,6 +127,19 @@ impl SubFix {
         }
     }
 
+    pub fn modify_sub(&mut self, sub: u32, interval_ms: f64, keep_alive: u32, lifetime: u32, priority: u8) -> StatusCode {
+        let h = self.conn.header(&self.token);
+        srv::status_of(&self.conn.call(ModifySubscriptionRequest {
+            request_header: h,
+            subscription_id: sub,
+            requested_publishing_interval: interval_ms,
+            requested_lifetime_count: lifetime,
+            requested_max_keep_alive_count: keep_alive,
+            max_notifications_per_publish: 0,
+            priority,
+        }))
+    }
+
     pub fn delete_sub(&mut self, sub: u32) -> StatusCode {
         let h = self.conn.header(&self.token);
         match self.conn.call(DeleteSubscriptionsRequest { request_header: h, subscription_ids: Some(vec![sub]) }) {
